@@ -1,7 +1,7 @@
 (* C03 - BESS tables are exactly the image of the live sessions' rules.  Statements only.
    Tables are maps key -> value with the add = upsert / delete-by-key semantics of the four lookup modules
    (Model/Agent.v: t_add, t_del, apply_cmds; the reading of pkg/fake_bess).  [tab m t] selects a module. *)
-From Coq Require Import NArith List Bool.
+From Coq Require Import NArith List Bool Lia.
 From UPF Require Import Model.IPPool Model.Fteid Model.PortRange Model.Agent Proofs.PortRangeProofs Proofs.AgentProofs.
 Import ListNotations.
 Open Scope N_scope.
@@ -127,3 +127,62 @@ Proof.
   do 3 eexists. repeat split; vm_compute; reflexivity.
 Qed.
 Print Assumptions C03_image_refuted_qer_relabel.
+
+(* ---- the image invariant over HISTORIES of several associations (Model/World.v): along every history of
+   establishments (accepted or rejected), deletions, Session Report responses, association releases, teardowns,
+   restarts and node-level messages - everything but Session Modification - on any number of associations, if the
+   tables are the image of the stored rules before, they are the image after: every entry the live sessions'
+   rules denote is present with its value and NO other key is present.  Hypotheses: every state the history goes
+   through is inside the envelope (local SEIDs distinct across live sessions, distinct match keys inside and across
+   sessions) and stored allocation flags are backed by the pool.  PARTIAL: Session Modification is excluded (the full
+   statement is refuted above); for modifications the per-batch theorems and the correspondence run apply. *)
+From UPF Require Import Model.World Proofs.WorldProofs.
+Theorem C03_image_invariant_partial : forall burst es w w',
+  (forall x, In x (states burst w es) -> envelope burst x /\ alloc_backed x) ->
+  forallb ev_ok es = true -> image_ok burst w -> wrun burst w es = Done w' -> image_ok burst w'.
+Proof. exact image_invariant. Qed.
+Print Assumptions C03_image_invariant_partial.
+
+(* non-vacuity: from a fresh agent, association setup then an accepted establishment (one downlink PDR, one FAR):
+   both states satisfy the hypotheses, so the theorem applies and the tables are the image of the one session *)
+Example C03_image_invariant_nonvacuous :
+  let burst := fun _ _ _ : N => 0 in
+  let w0 := World (Agent (Cfg 100 200 true) None (Gen 0 []) 0 no_tables) [] in
+  let pdr := PdrIE (IOk 2) (IOk 10) (IOk [PSrc (IOk 1); PUeip (IOk (2, Some 50))]) false (IOk 2) true [] in
+  let far := FarIE (IOk 2) (IOk 2) (IOk [FDst (IOk 0); FOhc (IOk (6, Some 8))]) IErr in
+  let es := [WMsg 0 true (MSetup (Some (IOk 7)) (Some (IOk 1))) []; WMsg 0 true (MEst (Some (IOk 7)) (Some (IOk (77, Some 3))) [pdr] [far] []) [5]] in
+  exists w', wrun burst w0 es = Done w' /\ forallb ev_ok es = true /\ image_ok burst w0 /\
+             (forall x, In x (states burst w0 es) -> envelope burst x /\ alloc_backed x) /\
+             length (all_sessions w') = 1%nat /\ length (t_pdr (a_tables (w_agent w'))) = 1%nat.
+Proof.
+  cbv zeta. eexists. split; [vm_compute; reflexivity|]. split; [reflexivity|]. split; [apply image_empty|]. split; [|split; reflexivity].
+  intros x Hx. vm_compute in Hx.
+  assert (forall cs : list cmd, (length cs <= 2)%nat ->
+            (forall a b, nth_error cs 0 = Some a -> nth_error cs 1 = Some b -> hits (c_mod a) (c_key a) b = false /\ hits (c_mod b) (c_key b) a = false) ->
+            distinct_keys cs) as D2.
+  { intros cs Hl H i j a b Ha Hb Hij. destruct cs as [|c0 [|c1 [|c2 cs]]]; cbn in Hl; try lia.
+    - destruct i; discriminate.
+    - destruct i as [|[|i]], j as [|[|j]]; simpl in Ha, Hb; try discriminate; try (destruct i; discriminate); try (destruct j; discriminate); exfalso; apply Hij; reflexivity.
+    - specialize (H c0 c1 eq_refl eq_refl). destruct H as [H01 H10].
+      destruct i as [|[|i]], j as [|[|j]]; simpl in Ha, Hb; try discriminate; try (destruct i; discriminate); try (destruct j; discriminate); try (exfalso; apply Hij; reflexivity).
+      + assert (a = c0) as -> by congruence. assert (b = c1) as -> by congruence. exact H01.
+      + assert (a = c1) as -> by congruence. assert (b = c0) as -> by congruence. exact H10. }
+  destruct Hx as [<-|[<-|[<-|[]]]].
+  - split; [|intros s []]. constructor; cbn [w_conns all_sessions flat_map map].
+    + constructor.
+    + constructor.
+    + intros s [].
+    + intros s1 s2 [].
+  - split; [|intros s []]. constructor; cbn [w_conns all_sessions flat_map map fst snd c_sessions app].
+    + repeat constructor. intros [].
+    + constructor.
+    + intros s [].
+    + intros s1 s2 [].
+  - split.
+    + constructor; cbn [w_conns all_sessions flat_map map fst snd c_sessions app].
+      * repeat constructor. intros [].
+      * repeat constructor. intros [].
+      * intros s [<-|[]]. apply D2; [vm_compute; lia|]. intros a b Ha Hb. vm_compute in Ha, Hb. inversion Ha; inversion Hb; subst. split; reflexivity.
+      * intros s1 s2 [<-|[]] [<-|[]] Hne. exfalso. apply Hne. reflexivity.
+    + intros s [<-|[]] He. vm_compute in He. discriminate.
+Qed.
